@@ -251,6 +251,9 @@ def format_work(mon, ctx, spec, rnd):
                     attach.call(f, a + b, p)
                     attach.call(f, a * b, p)
                     attach.call(f, a * 3 + 3599, p)
+        for x in (-0.0, 0.0, 5e-324, 1e-300, 1e-17, 4.9e-11, 5.1e-11, 360000.5, 59.99999999995, 3599.99999999999):      # edges of the float domain
+            for p in precs:
+                attach.call(f, x, p)
         for k in (0, 5, 65, 3600, 86400):          # int inputs
             for p in precs:
                 attach.call(f, k, p)
@@ -265,6 +268,8 @@ JUNK = ['', ' ', ':', ';', '1::2', '1:2;3', ':1', '1:', 'abc', '1e3', 'nan', 'in
         '١٢:٣٠', '５', '-5', '-1:30', '1:-30', '+5', '1:2:3:4', '1;2;3;4', '1:2.5:3', ' 1:2 ', '1 :2',
         '1:2\n', '\n', '1\x00', '1.2.3', '1,5', '1:2,5', '9' * 400, '9' * 5000, '1:' + '9' * 5000, '1.5e400', '1e-400', 'None',
         '1' + '0' * 400 + ':0.5', '9' * 310 + ';1.5', '2.5:' + '9' * 400, '1' + '0' * 309 + ':0:0.1', '9' * 4000 + ':0.5', 'True', '1:1:1e2', '0b1', '1j', '\t7', '7\t:8', '1:.', '.', '..', '1:.:2', '²', '①', '1 2', '5;', ';5']
+# more fields than the interpreter's recursion limit / than any clock has
+JUNK += [':'.join(['0'] * 1500), ';'.join(['1'] * 3000), '0:' * 20000 + '1', ':' * 5000, '1;2;3;4;5', '0.5:' * 1200 + '1']
 
 
 def parse_work(mon, ctx, spec, rnd):
